@@ -530,7 +530,7 @@ func BuildPool(e *Eco, r *RNG, n int, extra []string) (*Pool, []string) {
 	}
 	clust0, nClust := r.Intn(nClusters), 0
 	nSib, nDec, nPseudo, nFam := 0, 0, 0, 0
-	capClust, capSib, capDec, capFam := minInt(nClusters, 1+n/6), minInt(10, 1+n/20), minInt(10, 1+n/12), minInt(12, 1+n/16)
+	capClust, capSib, capDec, capFam := minInt(nClusters, 1+n/6), minInt(10, 1+n/20), minInt(10, 1+n/12), minInt(16, 1+n/10)
 	// the maintainers' own test inputs: available to the crossover, a few join the pool
 	hv, _ := harvestedFor(e)
 	for k, i := range r.Perm(len(hv)) {
@@ -611,7 +611,40 @@ func BuildPool(e *Eco, r *RNG, n int, extra []string) (*Pool, []string) {
 			// token-prefix closure of a long candidate, deep arities, edge letters, punctuation
 			// pairs (variants.go): one family per turn
 			src := s
-			switch nFam % 4 {
+			switch nFam % 8 {
+			case 4:
+				fam := joinerSwaps(r, src, all)
+				for _, k := range r.Perm(len(fam)) {
+					if k < 8 {
+						add(fam[k])
+					}
+				}
+			case 5:
+				// a long candidate: its last token is a hash, a revision, a tag
+				for k := 0; k < 6; k++ {
+					if c := all[r.Intn(len(all))]; len(c) > len(src) && len(c) < 80 {
+						src = c
+					}
+				}
+				fam := sameLengthTokenVariants(r, src)
+				for _, k := range r.Perm(len(fam)) {
+					if k < 6 {
+						add(fam[k])
+					}
+				}
+			case 6:
+				for _, t := range longWordVariants(r, src) {
+					add(t)
+				}
+			case 7:
+				if runs := digitRuns(src); len(runs) > 0 {
+					for _, t := range overflowSums(src[:runs[0][1]], ".") {
+						add(t)
+					}
+				}
+				for _, t := range markerMetadata(r, src) {
+					add(t)
+				}
 			case 0:
 				// the longest of a few candidates
 				for k := 0; k < 6; k++ {
